@@ -896,6 +896,8 @@ func (g *TxGen) Next(height int64) []*GenTx {
 		g.kmDriver().begin(height)
 	}
 
+	add(g.idleOwnerTx(height)) // idleowner.go (no PRNG draw)
+
 	// Maintenance: keep validator nodes registered (the documented election precondition).
 	v := g.view()
 	for _, n := range g.h.Sc.AllNodes() {
